@@ -75,6 +75,13 @@ type c11Dict map[string]int64
 func (d *c11Dict) Put(k string, v int64) int64 { (*d)[k] = v; return int64(len(*d)) }
 func (d c11Dict) Has(k string) bool            { _, ok := d[k]; return ok }
 
+// a struct that embeds a pointer: the promoted fields exist only while the pointer is set
+type C11Inner struct{ Y int64 }
+type c11Outer struct {
+	*C11Inner
+	Z int64
+}
+
 // a Go error type, handed out by Go functions as the interface type error and wanted back as the pointer it is
 type c11Err struct{ Code int64 }
 
@@ -308,6 +315,8 @@ func c11Env(h *c11Host) *env.Env {
 	e.Define("wanterrptr", func(p *c11Err) int64 { h.rec("wanterrptr"); return p.Code })
 	e.Define("wanterr", func(x error) string { h.rec("wanterr"); return x.Error() })
 	e.Define("errsl", []error{&c11Err{7}, nil})
+	e.Define("eo", &c11Outer{Z: 4})
+	e.Define("eo2", &c11Outer{C11Inner: &C11Inner{Y: 5}, Z: 6})
 	e.Define("stk", &c11Stack{})
 	e.Define("ctr", new(c11Counter))
 	e.Define("dict", &c11Dict{})
@@ -532,6 +541,12 @@ func c11Cases(rnd *Rand) []c11Case {
 	add("wanterr(mkstringer(9))", "mkstringer("+p(int64(9))+"); wanterr() => "+p("c11Err 9"), "a fmt.Stringer result whose value is an error passed to an error parameter")
 	add("wanterrptr(errsl[1])", " => error", "a nil error for a pointer parameter")
 	add("mkerr(2).Code", "mkerr("+p(int64(2))+") => "+p(int64(2)), "member access on an error result reads the field of the value it holds")
+	add("eo.Z", " => "+p(int64(4)), "own field of a struct that embeds a nil pointer")
+	add("eo.Y", " => error", "a field promoted from an embedded pointer that is nil: an error, never a crash")
+	add("eo.Y = 1", " => error", "a store into a field promoted from an embedded pointer that is nil: an error, never a crash")
+	add("r = (eo.Y ?? \"E\"); [r, eo.Z]", " => "+p([]interface{}{"E", int64(4)}), "... and the struct is unchanged")
+	add("[eo2.Y, eo2.Z]", " => "+p([]interface{}{int64(5), int64(6)}), "a field promoted from an embedded pointer that is set")
+	add("eo2.Y = 9; eo2.Y", " => "+p(int64(9)), "a store into a field promoted from an embedded pointer that is set")
 	add("obj.Nope", " => error", "unknown member")
 	add("pobj.N = \"x\"", " => error", "field write without a conversion")
 	// 6. callbacks
